@@ -94,9 +94,38 @@ def correspond(ctx):
                         for k in ("rounds", "salt"):
                             if k in ph and hasattr(obj, k):
                                 ok = ok and ph[k] == getattr(obj, k)
+                        # independent reading of the documented rule: every parsed setting that is always reported, or whose value differs
+                        # from the class default, is in the result with the object's value (a setting whose value is 0 / empty included)
+                        UNSET = object()
+                        want = {k: getattr(obj, k) for k in obj._parsed_settings
+                                if k in obj._always_parse_settings or getattr(obj, k) != getattr(h, k, UNSET)}
+                        if obj.checksum is not None:
+                            want["checksum"] = obj.checksum
+                        ok = ok and ph == want
                     o_rt.check(name + ":parsehash", ok, {"op": "parsehash", "hasher": name, "hash": hs}, repr(ph)[:200], "fields equal to from_string's")
                 except Exception as e:  # noqa: BLE001
                     o_rt.check(name + ":parsehash", False, {"op": "parsehash", "hasher": name, "hash": hs}, errname(e), "no error")
+    # ---- settings with a falsy value (0, empty) are settings like any other: parsing reports them and they reproduce the hash
+    from passlib import hash as H
+
+    falsy = [("fshp", dict(variant=0, rounds=2, salt=b"ab"), {"variant": 0}), ("fshp", dict(variant=1, rounds=2, salt=b""), {"salt": b""}),
+             ("cisco_type7", dict(salt=0), {"salt": 0}), ("sun_md5_crypt", dict(rounds=0, salt="abcd"), {"rounds": 0}),
+             ("pbkdf2_sha256", dict(rounds=2, salt=b""), {"salt": b""}), ("sha256_crypt", dict(rounds=1000, salt=""), {"salt": ""}),
+             ("md5_crypt", dict(salt=""), {"salt": ""}), ("scrypt", dict(rounds=1, block_size=1, parallelism=1, salt=b""), {"salt": b""}),
+             ("ldap_salted_sha1", dict(salt=b"\x00\x00\x00\x00"), {"salt": b"\x00\x00\x00\x00"})]
+    for name, kw, expect in falsy:
+        h = getattr(H, name)
+        inp = {"op": "parsehash-falsy", "hasher": name, "kwds": repr(kw)}
+        try:
+            hs = h.using(**kw).hash("pw")
+            ph = h.parsehash(hs)
+            got = {k: ph.get(k, "<absent>") for k in expect}
+            o_rt.check(name + ":parsehash-falsy-setting", got == expect, inp, repr(ph)[:200], repr(expect))
+            again = {k: v for k, v in ph.items() if k != "checksum"}
+            hs2 = h.using(**again).hash("pw")
+            o_rt.check(name + ":parsehash-reproduces", hs2 == hs, inp, hs2, hs)
+        except Exception as e:  # noqa: BLE001
+            o_rt.check(name + ":parsehash-falsy-setting", False, inp, errname(e) + ": " + str(e)[:100], "no error")
     if skipped:
         ctx.notes.append("round-trip oracle skipped: " + ", ".join(skipped))
     o_nc = Oracle(ctx, "normalisations-definition-lists-layout-switches")
@@ -236,7 +265,19 @@ def lossless_on_seeds(ctx, seeds):
         except Exception:  # noqa: BLE001
             continue
         if model != "ok " + c:
-            continue            # not a canonical string according to the model
+            # not canonical — but if the model (the format as it was validated against the code) parses it and re-renders it to a canonical
+            # form, it is a well-formed spelling under a documented normalisation: the real hasher must accept it and render that form
+            if model.startswith("ok ") and model != "ok None":
+                try:
+                    real = fc.reparse(name, h)
+                except ValueError as e:
+                    return {"input": {"op": "reparse-normalised", "hasher": name, "hash": h, "canonical": _uncps(model[3:])}, "observed": errname(e) + ": " + str(e)[:100],
+                            "expected": "accepted and re-rendered as " + _uncps(model[3:])}
+                except Exception:  # noqa: BLE001
+                    continue
+                if real != model[3:]:
+                    return {"input": {"op": "reparse-normalised", "hasher": name, "hash": h, "canonical": _uncps(model[3:])}, "observed": _uncps(real), "expected": _uncps(model[3:])}
+            continue
         try:
             real = fc.reparse(name, h)
         except Exception as e:  # noqa: BLE001
@@ -264,6 +305,12 @@ def replay(ctx, inp):
         try:
             real = _uncps(fc.reparse(inp["hasher"], inp["hash"]))
             return {"fails": real != inp["hash"], "observed": real}
+        except Exception as e:  # noqa: BLE001
+            return {"fails": True, "observed": errname(e)}
+    if inp.get("op") == "reparse-normalised":
+        try:
+            real = _uncps(fc.reparse(inp["hasher"], inp["hash"]))
+            return {"fails": real != inp["canonical"], "observed": real}
         except Exception as e:  # noqa: BLE001
             return {"fails": True, "observed": errname(e)}
     if inp.get("op") == "inspect-sha-implicit":
